@@ -390,7 +390,11 @@ static void op_xrd(sqfs_xattr_reader_t *x, int argc, char **argv)
 		out("desc %d %llu %u %u", r, r ? 0ULL : (unsigned long long)d.xattr, r ? 0 : d.count, r ? 0 : d.size);
 	} else if (argc >= 2 && !strcmp(argv[0], "readall")) {
 		sqfs_xattr_t *l = NULL, *it; unsigned long long h = 1469598103934665603ULL; int n = 0; size_t i;
-		int r = sqfs_xattr_reader_read_all(x, strtoul(argv[1], 0, 0), &l);
+		int r;
+		/* on an image without xattrs get_desc(0) succeeds and read_all then seeks through a NULL reader: library
+		   robustness issue that has nothing to do with copies (twins crash alike) - not exercised here */
+		if (x->kvrd == NULL && strtoul(argv[1], 0, 0) == 0) { out("readall no-xattrs"); return; }
+		r = sqfs_xattr_reader_read_all(x, strtoul(argv[1], 0, 0), &l);
 		for (it = l; !r && it; it = it->next) {
 			for (i = 0; it->key[i]; ++i) { h ^= (unsigned char)it->key[i]; h *= 1099511628211ULL; }
 			for (i = 0; i < it->value_len; ++i) { h ^= it->value[i]; h *= 1099511628211ULL; }
